@@ -119,7 +119,10 @@ class Graph:
         return paths, len(uncovered)
 
     USE = ("transform", "rottransform", "query", "rotquery", "inverse", "bootfit", "serialize", "rotserialize")
-    RESET = ("fit", "rotfit", "compute", "rotcompute", "deserialize", "rotdeserialize")
+    # "rotfit_other": the rotator is fitted again after its model was refitted on OTHER data (another rotation matrix,
+    # other norms, signs, order) - a plain rotator refit on the unchanged model recomputes what it already holds and
+    # cannot expose anything a call left behind (seeds C04c, C03e: a memoised inverse rotation matrix)
+    RESET = ("fit", "rotfit", "rotfit_other", "compute", "rotcompute", "deserialize", "rotdeserialize")
     ANSWER = ("transform", "rottransform", "query", "rotquery", "inverse")
 
     def _bfs(self, src, want, depth):
@@ -161,7 +164,9 @@ class Graph:
                     dist[v] = dist[x] + [(x, a, v)]
                     q.append(v)
         out = []
-        kinds = sorted(by_kind)
+        # calls that are most likely to leave something behind come first (the quick tier does not reach every pair)
+        prio = ["rottransform", "transform", "bootfit", "query", "rotquery", "inverse", "serialize", "rotserialize"]
+        kinds = sorted(by_kind, key=lambda k_: prio.index(k_) if k_ in prio else 99)
         pairs = [(k, rk) for k in kinds for rk in self.RESET]
         rounds = max(1, -(-n // len(pairs)))
         for rnd in range(rounds):
@@ -175,7 +180,13 @@ class Graph:
                     path = dist[u] + [(u, a, v)]
                     side = a["kind"].startswith("rot")
                     arg0 = self.states[u]["m"].get("data")
-                    seg = self._bfs(v, lambda x, b: b["kind"] == rk and (rk != "fit" or b.get("arg") != arg0), 2)
+                    if rk == "rotfit_other":
+                        base0 = self.states[v]["r"].get("base")
+                        if not self.states[v]["r"].get("fitted"):
+                            continue
+                        seg = self._bfs(v, lambda x, b: b["kind"] == "rotfit" and self.states[x]["m"].get("data") not in (None, "none", base0), 3)
+                    else:
+                        seg = self._bfs(v, lambda x, b: b["kind"] == rk and (rk != "fit" or b.get("arg") != arg0), 2)
                     if seg is None:
                         continue
                     path += seg
@@ -188,6 +199,9 @@ class Graph:
                             base = st["r"].get("base") if b["kind"] == "rottransform" else st["m"].get("data")
                             return b["kind"] == a["kind"] and b.get("arg") == base
                         seg2 = self._bfs(seg[-1][2], _training, 3)
+                    if a["kind"] == "bootfit":
+                        # the same bootstrapper object (same seed) fitted again: it has to draw what a fresh one draws
+                        seg2 = self._bfs(seg[-1][2], lambda x, b: b["kind"] == "bootfit" and b.get("seed") == a.get("seed"), 3)
                     if seg2 is None and a["kind"] in self.ANSWER:
                         seg2 = self._bfs(seg[-1][2], lambda x, b: b["kind"] == a["kind"], 3)
                     if seg2 is None:
@@ -672,6 +686,8 @@ class Replayer:
         if not hasattr(self, "boots"):
             self.boots = {}
         bs = self.boots.setdefault(a["seed"], BOOT(n_bootstraps=nb, seed=sd))
+        again = getattr(bs, "_verif_fits", 0) > 0
+        bs._verif_fits = getattr(bs, "_verif_fits", 0) + 1
         self.call("C20", "BootFit", "bootstrapper.fit(model)", lambda: bs.fit(self.model))
         ev = [e for e in _verif.events() if e["event"] == "boot_resample"]
         n = len(self.sample_labels(w.ds_mem[a["base"]]))
@@ -679,7 +695,10 @@ class Replayer:
         exp = [rng.choice(n, n, replace=True).tolist() for _ in range(nb)]
         got = [list(map(int, e["idx"])) for e in ev]
         self.D(got == exp, "C20", "C20_SameSeedSameResample",
-               f"bootstrap resample indices are not the with-replacement draws determined by seed {sd}")
+               f"bootstrap resample indices are not the with-replacement draws determined by seed {sd}" + (" (second fit of the same bootstrapper object)" if again else ""))
+        if again:      # what a re-used object answers must not depend on its earlier fits (C14 speaks of every model object)
+            self.D(got == exp, "C14", "C14_RefitIsFresh",
+                   f"a bootstrapper fitted a second time (seed {sd}) does not draw the resamples a fresh bootstrapper with that seed draws")
         self.D(bs.data["components"].sizes.get("n") == nb, "C20", "C20_Structure", "member dimension has wrong length")
 
     # ------------------------------------------------------------------
